@@ -199,7 +199,7 @@ class Check:
     def finish(self, floor_events=1):
         self.cov['distinct_nontrivial'] = max(self.cov.get('distinct_nontrivial', 0), len(self._distinct))
         wall = time.time() - self.t0
-        evdir = os.path.join(VERIF, 'evidence') if REPO == '/repo' else os.path.join(WORK, 'alt-evidence')
+        evdir = os.environ.get('VERIF_EVDIR') or (os.path.join(VERIF, 'evidence') if REPO == '/repo' else os.path.join(WORK, 'alt-evidence'))
         os.makedirs(evdir, exist_ok=True)
         os.makedirs(os.path.join(VERIF, 'replays'), exist_ok=True)
         lines = []
